@@ -49,6 +49,8 @@ def run(ctx):
     rule_pipeline(ctx)
     rule_same_decider(ctx)
     rule_sets_and_numbers(ctx)
+    rule_copy_complete(ctx)
+    rule_distinct_bindings(ctx)
 
 
 def producers(prog):
@@ -458,6 +460,85 @@ def rule_same_decider(ctx):
     run.check(ok, R, key(ff.module.relpath, ff.qualname, "yields-exactly-equivalents"), "the search does not yield exactly the members "
               "that compare equal", file=ff.module.relpath, line=ff.node.lineno, function=ff.qualname,
               expected="for p in patterns: if cmp(...) == 0: yield p", found=short(ff.node, 200))
+
+
+def rule_copy_complete(ctx):
+    """Transformers rebuild pattern nodes; a rebuilt node must carry every piece of state of the node it replaces.  At
+    every construction of a stix2.patterns class inside the equivalence package all constructor parameters are bound: an
+    omitted defaulted parameter (negated=False) silently resets that state -- NOT disappears from a distributed copy."""
+    from ..callgraph import get_callgraph
+    run = ctx.run
+    prog = ctx.prog
+    R = "C09.copy-complete"
+    cg = get_callgraph(prog)
+    n = 0
+    for fi in sorted(prog.functions.values(), key=lambda f: f.id):
+        if not fi.module.name.startswith("stix2.equivalence.pattern"):
+            continue
+        for call in cg.calls_in(fi):
+            d = prog.deref(prog.resolve_expr(fi.scope, call.func)) if isinstance(call.func, (ast.Name, ast.Attribute)) else None
+            if not isinstance(d, ClassInfo) or d.module.name != "stix2.patterns":
+                continue
+            init = next((k.methods["__init__"] for k in d.mro if "__init__" in k.methods), None)
+            if init is None:
+                continue
+            params = [p_ for p_ in init.params if p_ != "self"]
+            if any(isinstance(a, ast.Starred) for a in call.args) or any(k.arg is None for k in call.keywords):
+                continue
+            bound = set(params[:len(call.args)]) | {k.arg for k in call.keywords}
+            n += 1
+            missing = [p_ for p_ in params if p_ not in bound]
+            run.check(not missing, R, key(fi.module.relpath, fi.qualname, "%s(...)" % d.name),
+                      "a pattern node is rebuilt without its %s: the copy silently takes the default (negated=False), so e.g. the "
+                      "copies made when AND is distributed over OR lose their NOT and two patterns of different meaning "
+                      "compare equivalent" % "/".join(missing), file=fi.module.relpath, line=call.lineno, function=fi.qualname,
+                      expected="all of %s bound" % params, found=short(call, 120))
+    if n < 8:
+        raise AnalysisError("equivalence package: fewer than 8 constructions of pattern nodes found (%d)" % n)
+
+
+def rule_distinct_bindings(ctx):
+    """Observation-level AND / FOLLOWEDBY need distinct bindings: (A AND A) is not contained in (A AND B).  Absorption
+    `X OR (X AND Y) = X` therefore matches operands as a MULTISET: a container operand that matched one containee operand
+    is consumed.  Decided structurally: the match loop of the AND containment test deletes the matched element from a
+    private copy of the container; a plain membership test (set semantics) is a violation."""
+    run = ctx.run
+    prog = ctx.prog
+    R = "C09.distinct-bindings"
+    cls = prog.cls("stix2.equivalence.pattern.transform.observation::AbsorptionTransformer")
+    cands = [f for nm, f in cls.methods.items() if nm.endswith("is_contained_and")]
+    if len(cands) != 1:
+        raise AnalysisError("observation AbsorptionTransformer: AND containment method not found")
+    fi = cands[0]
+    rel = fi.module.relpath
+    params = [p_ for p_ in fi.params if p_ != "self"]
+    if len(params) != 2:
+        raise AnalysisError("%s: expected (containee, container) parameters" % fi.qualname)
+    container = params[1]
+    copies = {norm(a.targets[0]) for a in body_walk(fi.node) if isinstance(a, ast.Assign) and isinstance(a.value, ast.Call)
+              and call_simple_name(a.value) in ("list", "copy", "deepcopy") and a.value.args and norm(a.value.args[0]) == container}
+    consumed = []
+    for x in body_walk(fi.node):
+        if isinstance(x, ast.Delete):
+            for t in x.targets:
+                if isinstance(t, ast.Subscript) and norm(t.value) in copies:
+                    consumed.append(x)
+        if isinstance(x, ast.Call) and isinstance(x.func, ast.Attribute) and x.func.attr in ("pop", "remove") and norm(x.func.value) in copies:
+            consumed.append(x)
+    in_match = [x for x in consumed if any(pol and isinstance(t, ast.Compare) and isinstance(t.ops[0], ast.Eq)
+                                             and norm(t.comparators[0]) == "0" and "_cmp(" in norm(t.left)
+                                             for t, pol, _ in guard_chain(x)) and any(isinstance(p_, ast.For) for p_ in _parents(x))]
+    mutates_arg = [x for x in body_walk(fi.node) if (isinstance(x, ast.Delete) and any(
+        isinstance(t, ast.Subscript) and norm(t.value) == container for t in x.targets)) or (
+        isinstance(x, ast.Call) and isinstance(x.func, ast.Attribute) and x.func.attr in ("pop", "remove", "clear")
+        and norm(x.func.value) == container)]
+    run.check(bool(in_match) and not mutates_arg, R, key(rel, fi.qualname, "matched-operand-consumed"),
+              "AND containment between observation expressions is decided without consuming matched operands (set instead of "
+              "multiset semantics): ([a:b=1] AND [a:b=1]) OR ([a:b=1] AND [a:b=2]) absorbs its second disjunct although a "
+              "sequence (b=1, b=2) matches only that one -- patterns of different meaning compare equivalent", file=rel,
+              line=fi.node.lineno, function=fi.qualname,
+              expected="container = list(<container>); ... if <cmp>(ee, er) == 0: del container[i]; break",
+              found=[short(x) for x in consumed] or "no deletion from a private copy of the container")
 
 
 def _parents(n):
